@@ -2094,7 +2094,8 @@ def c05_update_group(mir, ctx):
     def m_any(ex, callee, args, pc, events):
         mm = re.search(r"any::<\{closure@([^}]*)\}>", callee)
         if not mm:
-            raise EncodingError("Iterator::any with a non-closure predicate in Update::exec: %s" % callee)
+            # not a closure this encoding can run: the verdict is an arbitrary boolean, unrelated to is_primary_key
+            return [(pc, events + [("any-opaque", callee[-60:])], BoolV(ctx.fresh_bool("any_opaque").term))]
         span = mm.group(1)
         tg = [f for n, fs in mir.fns.items() for f in fs if f.args and ("{closure@%s}" % span) in f.args[0][1]]
         if len(tg) != 1:
@@ -2871,8 +2872,75 @@ def c05_all(mir, ctx):
     return c05_update_group(mir, ctx) + c05_insert_group(mir, ctx)
 
 
+def c12_column_lookup_group(mir, ctx):
+    """Table::index_for_column_name, loop unrolled (<= 3 columns): the index returned is that of the
+    FIRST column whose name equals the argument (so in a self-join, where both sides contribute
+    the same prefixed names, a name means the left occurrence), None when no column matches."""
+    fn = mir.find(r"table::.*::index_for_column_name$")
+    from .mir_protocol import _confirm_query
+    lens = {}
+    it_models, what_of, coll = iter_models(ctx, lens, consistent=True)
+    names = {}
+
+    def m_name(ex, callee, args, pc, events):
+        return [(pc, events, OpaqueV("name(%s)" % what_of(ex, args[0])))]
+
+    def m_eq(ex, callee, args, pc, events):
+        def w(a):
+            v = ex.load(a)
+            while isinstance(v, RefV):
+                v = ex.load(v.target)
+            return getattr(v, "what", repr(v))
+        a, b = w(args[0]), w(args[1])
+        key = a if a.startswith("name(") else b
+        if key not in names:
+            names[key] = ctx.fresh_bool("name_matches").term
+        return [(pc, events + [("cmp", key, names[key])], BoolV(names[key]))]
+
+    models = [(r"Column::name$", m_name), (r"as PartialEq(<.*>)?>::eq$", m_eq)] + it_models
+    ex = M.Exec(mir, ctx, models=models, havoc_unknown=True)
+    ex.max_revisit = 4
+    from .mir_protocol import struct_fields
+    tf = struct_fields(open(os.path.join(REPO, "src/internal/table.rs")).read(), "Table")
+    if "columns" not in tf:
+        raise EncodingError("struct Table has no field `columns`")
+    ex.new_obj("table", [OpaqueV("table." + f) for f in tf])
+    outs = ex.run(fn, [M.ObjV("table"), OpaqueV("wanted")])
+    g = Group("column_lookup", ["table::Table::index_for_column_name (loop unrolled)"], confirm=_confirm_query,
+              note="index_for_column_name(name) returns Some(i) exactly for the first column i whose name equals `name` (every earlier column was "
+                   "compared and differs), and None exactly when every column was compared and none matches")
+    n = 0
+    for k, o in enumerate(outs):
+        if o.kind != "return":
+            continue
+        n += 1
+        v = o.value
+        cmps = [e for e in o.events if e[0] == "cmp"]
+        cols = [e[1] for e in o.events if e[0] == "elem" and re.fullmatch(r"table\.columns\[\d+\]", e[1])]
+        ncols = o.heap.get("$lens", {}).get("table.columns")
+        if isinstance(v, EnumV) and v.variant in (1, "Some"):
+            idx = v.fields[0]
+            want = len(cols) - 1
+            if not (isinstance(idx, IntV) and idx.const == want) or len(cmps) != len(cols):
+                g.queries.append(Query("index_%d" % k, o.pc, "unsat", note="returns %r after visiting %d columns and %d comparisons" % (idx, len(cols), len(cmps))))
+            else:
+                last = cmps[-1][2]
+                earlier = [c[2] for c in cmps[:-1]]
+                g.queries.append(Query("first_%d" % k, o.pc + ["(not (and %s %s))" % (last, " ".join("(not %s)" % t for t in earlier) if earlier else "true")], "unsat",
+                                       note="the index returned is not that of the first column with the wanted name"))
+        else:
+            if ncols is None or len(cmps) != ncols:
+                g.queries.append(Query("none_early_%d" % k, o.pc, "unsat", note="returns None without comparing every column (%d of %s)" % (len(cmps), ncols)))
+            for c in cmps:
+                g.queries.append(Query("none_%d_%d" % (k, len(g.queries)), o.pc + [c[2]], "unsat", note="returns None although a column has the wanted name"))
+        g.witness.append(Query("w_%d" % k, o.pc, "sat"))
+    if n < 3:
+        raise EncodingError("column lookup: only %d returning paths" % n)
+    return [g]
+
+
 def c12_all(mir, ctx):
-    return c12_join_group(mir, ctx) + c12_select_gate_group(mir, ctx)
+    return c12_join_group(mir, ctx) + c12_select_gate_group(mir, ctx) + c12_column_lookup_group(mir, ctx)
 
 
 def c08_all(mir, ctx):
@@ -2889,7 +2957,7 @@ def _proto(which):
 
 BUILDERS = {"C18": c18_groups, "C19": c19_groups, "C14": c14_groups, "C20": c20_all, "C09": c20_groups,
             "C01": _proto({"mutators", "finish", "close"}), "C10": _proto({"mutators", "finish"}),
-            "C15": _proto({"finish", "close"}), "C16": _proto({"readonly"}), "C08": c08_all, "C04": (lambda mir, ctx: _proto({"reject"})(mir, ctx) + c04_create_table_group(mir, ctx)), "C11": c11_all, "C07": c07_insert_gate_group, "C12": c12_all, "C05": c05_all, "C13": c13_constructor_group, "C03": c03_all}
+            "C15": _proto({"finish", "close"}), "C16": _proto({"readonly"}), "C08": c08_all, "C04": (lambda mir, ctx: _proto({"reject"})(mir, ctx) + c04_create_table_group(mir, ctx) + c05_update_group(mir, ctx) + c05_insert_group(mir, ctx)), "C11": c11_all, "C07": c07_insert_gate_group, "C12": c12_all, "C05": c05_all, "C13": c13_constructor_group, "C03": c03_all}
 
 
 def native_confirm_c18(vals, work):
